@@ -365,6 +365,7 @@ func (w *World) prelude(usedLits map[string]bool) string {
 	b.WriteString("(assert (forall ((a Str) (b Str) (k Int)) (! (= (sat (sconcat a b) k) (ite (< k (slen a)) (sat a k) (sat b (- k (slen a))))) :pattern ((sat (sconcat a b) k)))))\n")
 	b.WriteString("(assert (forall ((a Str)) (! (= (sconcat a str_empty) a) :pattern ((sconcat a str_empty)))))\n")
 	b.WriteString("(assert (forall ((a Str)) (! (= (sconcat str_empty a) a) :pattern ((sconcat str_empty a)))))\n")
+	b.WriteString("(assert (forall ((a Str) (b Str) (c Str)) (! (= (sconcat (sconcat a b) c) (sconcat a (sconcat b c))) :pattern ((sconcat (sconcat a b) c)))))\n")
 	// struct datatypes (registration order is dependency order: inner first)
 	for _, n := range w.structOrder {
 		ss := w.structSorts[n]
